@@ -10,8 +10,7 @@ Statements only (helpers: `Proofs/Stack.lean`, `Proofs/Array*.lean`).  Concrete 
 Quantifiers: every stack state satisfying the invariant, every element, every push/pop/peek/size
 interleaving of any length (hence across any number of growth steps), every initial capacity the
 constructor accepts, every growth function, every allocator schedule.
-Hypotheses: `0 < m.live` (ledger knows the stack's blocks), `hg` (growth function within the range
-of the C cast — needed only for invariant preservation across growth steps). -/
+Hypothesis: `0 < m.live` (the ledger knows the stack's blocks). -/
 namespace CC.Properties.C09Stack
 open CC
 open CC.Spec.Seq (SOp Out)
@@ -22,7 +21,7 @@ theorem step_refines (s : Stack) (op : SOp) (m : Mem) (hinv : s.Inv) (hlive : 0 
     (s.step op m).1 = (Spec.Seq.sstep s.abs op (s.step op m).1.blocked).1 ∧
     (s.step op m).2.1.abs = (Spec.Seq.sstep s.abs op (s.step op m).1.blocked).2 ∧
     (s.step op m).2.1.v.grow = s.v.grow ∧
-    (s.v.grow s.v.capacity ≤ Gen.CC_MAX_ELEMENTS → (s.step op m).2.1.Inv) ∧
+    (s.step op m).2.1.Inv ∧
     (s.step op m).2.2.live = m.live ∧ (s.step op m).2.2.fault = m.fault ∧
     (∀ st, (s.step op m).1.st = some st → st ≠ .ok → (s.step op m).2.1.v = s.v) := by
   cases op with
@@ -31,29 +30,28 @@ theorem step_refines (s : Stack) (op : SOp) (m : Mem) (hinv : s.Inv) (hlive : 0 
     simp only [Stack.step, Stack.push, Spec.Seq.sstep, Arr.blocked_mk, Stack.abs, Stack.Inv]
     rcases sp with ⟨ok, habs, hg⟩ | ⟨hb, hsame⟩
     · simp only [ok, Spec.Seq.push, Spec.Seq.add]
-      refine ⟨by simp, by simpa using habs, hg.2.2.2.2, fun h => hg.inv hinv h, sl, sf, fun st h1 h2 => ?_⟩
+      refine ⟨by simp, by simpa using habs, hg.2.2.2.2, hg.inv hinv, sl, sf, fun st h1 h2 => ?_⟩
       simp at h1; exact absurd h1.symm h2
     · rcases hb.1 with ⟨h, _⟩ | ⟨h, _⟩ <;>
       · simp only [h, hsame]
-        exact ⟨by simp, by simp, by triv, fun _ => hinv, sl, sf, fun _ _ _ => by triv⟩
+        exact ⟨by simp, by simp, by triv, hinv, sl, sf, fun _ _ _ => by triv⟩
   | pop =>
     obtain ⟨r1, r2, r3, r4, r5, r6, r7, r8, r9⟩ := Arr.removeLast_spec s.v m hinv
     simp only [Stack.step, Stack.pop, Spec.Seq.sstep, Spec.Seq.pop, Stack.abs, Stack.Inv]
-    refine ⟨by rw [r1, r2], r3, r4.2.2, fun _ => r4.inv hinv r5, by rw [r6], by rw [r6], fun st h1 h2 => ?_⟩
+    refine ⟨by rw [r1, r2], r3, r4.2.2, r4.inv hinv r5, by rw [r6], by rw [r6], fun st h1 h2 => ?_⟩
     simp only [Option.some.injEq] at h1
     exact r7 (by rw [h1]; exact h2)
   | peek =>
     obtain ⟨r1, r2, r3, r4⟩ := Arr.getLast_spec s.v m hinv
     simp only [Stack.step, Stack.peek, Spec.Seq.sstep, Spec.Seq.peek, Stack.abs]
-    exact ⟨by rw [r1, r2], by triv, by triv, fun _ => hinv, by rw [r3], by rw [r3], fun _ _ _ => by triv⟩
+    exact ⟨by rw [r1, r2], by triv, by triv, hinv, by rw [r3], by rw [r3], fun _ _ _ => by triv⟩
   | size =>
     simp only [Stack.step, Spec.Seq.sstep, Stack.size, Stack.abs]
-    exact ⟨by simp, by triv, by triv, fun _ => hinv, by triv, by triv, fun _ _ _ => by triv⟩
+    exact ⟨by simp, by triv, by triv, hinv, by triv, by triv, fun _ _ _ => by triv⟩
 
 /-- **C09, all interleavings**: any push/pop/peek/size history on the concrete stack reports exactly
 what the ideal LIFO list reports and ends with the same content -/
-theorem history_refines (ops : List SOp) (s : Stack) (m : Mem) (hinv : s.Inv) (hlive : 0 < m.live)
-    (hg : ∀ c, s.v.grow c ≤ Gen.CC_MAX_ELEMENTS) :
+theorem history_refines (ops : List SOp) (s : Stack) (m : Mem) (hinv : s.Inv) (hlive : 0 < m.live) :
     (s.run ops m).1 = (Spec.Seq.srun s.abs ops ((s.run ops m).1.map Out.blocked)).1 ∧
     (s.run ops m).2.1.abs = (Spec.Seq.srun s.abs ops ((s.run ops m).1.map Out.blocked)).2 ∧
     (s.run ops m).2.1.Inv ∧ (s.run ops m).2.2.live = m.live ∧ (s.run ops m).2.2.fault = m.fault := by
@@ -61,7 +59,7 @@ theorem history_refines (ops : List SOp) (s : Stack) (m : Mem) (hinv : s.Inv) (h
   | nil => exact ⟨rfl, rfl, hinv, rfl, rfl⟩
   | cons op ops ih =>
     obtain ⟨s1, s2, s3, s4, s5, s6, _⟩ := step_refines s op m hinv hlive
-    obtain ⟨i1, i2, i3, i5, i6⟩ := ih (s.step op m).2.1 (s.step op m).2.2 (s4 (hg _)) (by omega) (by rw [s3]; exact hg)
+    obtain ⟨i1, i2, i3, i5, i6⟩ := ih (s.step op m).2.1 (s.step op m).2.2 s4 (by omega)
     simp only [Stack.run, Spec.Seq.srun, List.map_cons, List.headD_cons, List.tail_cons]
     rw [← s2]
     exact ⟨by rw [← i1, ← s1], i2, i3, by rw [i5, s5], by rw [i6, s6]⟩
@@ -69,7 +67,7 @@ theorem history_refines (ops : List SOp) (s : Stack) (m : Mem) (hinv : s.Inv) (h
 /-- a push succeeds whenever the allocator does not refuse (and the capacity limit of 2^64−2 slots
 is not reached) -/
 theorem push_succeeds (s : Stack) (x : Nat) (m : Mem) (hinv : s.Inv) (hlive : 0 < m.live)
-    (halloc : s.v.size = s.v.capacity → m.alloc.1 = true) (hmax : s.v.capacity ≠ Gen.CC_MAX_ELEMENTS) :
+    (halloc : s.v.size = s.v.capacity → m.alloc.1 = true) (hmax : ¬ s.v.AtLimit) :
     (s.push x m).1 = .ok ∧ (s.push x m).2.1.abs = s.abs ++ [x] := by
   rcases (Arr.add_spec s.v x m hinv hlive).1 with ⟨ok, habs, _⟩ | ⟨⟨hb, hfull⟩, _⟩
   · exact ⟨ok, habs⟩
@@ -176,7 +174,7 @@ theorem filter_mut_refines (p : Nat → Bool) (s : Stack) (m : Mem) (hinv : s.In
 /-- `cc_stack_filter` builds a stack of exactly the live elements satisfying the predicate (same
 order), or — empty source, or any refusal on the way — no object with a balanced ledger -/
 theorem filter_refines (p : Nat → Bool) (s : Stack) (dgrow : Nat → Nat) (dexGe : Nat → Bool) (m : Mem)
-    (hinv : s.Inv) (hg : ∀ c, dgrow c ≤ Gen.CC_MAX_ELEMENTS) :
+    (hinv : s.Inv) :
     ((s.filter p dgrow dexGe m).1 = .errOutOfRange ∧ s.abs = [] ∧ (s.filter p dgrow dexGe m).2.1 = none ∧
       (s.filter p dgrow dexGe m).2.2.2 = m) ∨
     (((s.filter p dgrow dexGe m).1 = .errAlloc ∨ (s.filter p dgrow dexGe m).1 = .errMaxCapacity ∨
@@ -187,7 +185,7 @@ theorem filter_refines (p : Nat → Bool) (s : Stack) (dgrow : Nat → Nat) (dex
       ∃ r, (s.filter p dgrow dexGe m).2.1 = some r ∧ r.abs = s.abs.filter p ∧ r.Inv ∧ r.v.grow = dgrow ∧
         (s.filter p dgrow dexGe m).2.2.1 = s.abs ∧
         (s.filter p dgrow dexGe m).2.2.2.live = m.live + 3 ∧ (s.filter p dgrow dexGe m).2.2.2.fault = m.fault) :=
-  Stack.filter_spec p s dgrow dexGe m hinv hg
+  Stack.filter_spec p s dgrow dexGe m hinv
 
 /-! ## Constructor and destructor (wrapped construction: C08 part) -/
 
@@ -208,8 +206,7 @@ theorem destroy_ledger (s : Stack) (m : Mem) (hlive : 3 ≤ m.live) :
 /-- **C09 from the constructor**: every interleaving on a freshly constructed stack of any accepted
 capacity and any expansion factor is LIFO -/
 theorem new_history_refines (cap : Nat) (grow : Nat → Nat) (exGe : Nat → Bool) (m0 : Mem) (s0 : Stack)
-    (hnew : (Stack.new cap grow exGe m0).2.1 = some s0) (ops : List SOp)
-    (hg : ∀ c, grow c ≤ Gen.CC_MAX_ELEMENTS) :
+    (hnew : (Stack.new cap grow exGe m0).2.1 = some s0) (ops : List SOp) :
     let m1 := (Stack.new cap grow exGe m0).2.2
     (s0.run ops m1).1 = (Spec.Seq.srun [] ops ((s0.run ops m1).1.map Out.blocked)).1 ∧
     (s0.run ops m1).2.1.abs = (Spec.Seq.srun [] ops ((s0.run ops m1).1.map Out.blocked)).2 ∧
@@ -221,7 +218,6 @@ theorem new_history_refines (cap : Nat) (grow : Nat → Nat) (exGe : Nat → Boo
     simp only [Option.some.injEq] at hnew
     subst hnew
     have := history_refines ops r m1 h3 (by show 0 < (Stack.new cap grow exGe m0).2.2.live; omega)
-      (by rw [h5]; exact hg)
     rw [h2] at this
     obtain ⟨t1, t2, t3, t5, t6⟩ := this
     exact ⟨t1, t2, t3, by rw [t5]; exact h6, by rw [t6]; exact h7⟩
